@@ -980,10 +980,20 @@ var stackable = []string{
 	"reqhash-short-resigned", "chain-bad-resigned", "servicer-bad-resigned", "app-absent",
 }
 
-func oneCase(seed uint64, a string) *scenario {
+func oneCase(seed uint64, a string) (sc *scenario) {
+	parts := strings.Split(a, "+")
+	if len(parts) > 1 {
+		// a second alteration may not be applicable after the first (e.g. it slices a field the
+		// first one emptied): then the case degrades to the first alteration alone
+		defer func() {
+			if recover() != nil {
+				caseAlter = parts[0]
+				sc = oneCase(seed, parts[0])
+			}
+		}()
+	}
 	r := gen.New(seed)
 	s := base(r)
-	parts := strings.Split(a, "+")
 	for _, p := range parts {
 		s.alter(r, p)
 	}
